@@ -1,154 +1,208 @@
-(* C16 — proofs, part 3: equal objects have equal sxhash codes (on the domain of hash_dom). *)
-From Coq Require Import ZArith NArith List Bool Lia.
-From C16 Require Import Model Spec Proofs Proofs2.
+(* C16 — proofs, part 3: equal objects have equal sxhash codes (on the domain of hash_dom).  sxhash hashes a
+   canonical form (hashData): text through the case folding that equal uses, numbers through their value as a
+   single-float; so the proof is: inside the guard, equal numbers have equal VALUES, equal strings equal
+   foldings, and the code is a function of those. *)
+From Coq Require Import ZArith NArith List Bool Lia QArith Qreduction.
+From C16 Require Import Model Spec Proofs Proofs2 RoundExact.
 Import ListNotations.
+Close Scope Q_scope.
+Open Scope Z_scope.
 Open Scope list_scope.
 
-(* ---- per character: case variants have the same SEN class and the same masked byte ------------------ *)
-Definition sclass_eqb (a b : sclass) : bool :=
-  match a, b with CO, CO | CZ, CZ | CX, CX | COther, COther => true | _, _ => false end.
-Lemma sclass_eqb_eq : forall a b, sclass_eqb a b = true -> a = b.
-Proof. intros [] []; simpl; intro; try discriminate; reflexivity. Qed.
-Definition range128 : list N := map N.of_nat (seq 0 128).
-Lemma in_range128 : forall a, (a < 128)%N -> In a range128.
-Proof.
-  intros a H. unfold range128. rewrite <- (N2Nat.id a). apply in_map. apply in_seq. lia.
-Qed.
-Definition char_table_ok : bool :=
-  forallb (fun a => forallb (fun b =>
-    implb (fold_eqb a b) (sclass_eqb (sen_class a) (sen_class b) && (N.land a 223 =? N.land b 223)%N)) range128) range128.
-Lemma char_table_ok_true : char_table_ok = true.
-Proof. vm_compute. reflexivity. Qed.
-Lemma per_char : forall a b, (a < 128)%N -> (b < 128)%N -> fold_eqb a b = true ->
-  sen_class a = sen_class b /\ N.land a 223 = N.land b 223.
-Proof.
-  intros a b Ha Hb H. pose proof char_table_ok_true as T. unfold char_table_ok in T.
-  rewrite forallb_forall in T. specialize (T a (in_range128 a Ha)).
-  rewrite forallb_forall in T. specialize (T b (in_range128 b Hb)).
-  rewrite H in T. simpl in T. apply andb_true_iff in T as [T1 T2].
-  split; [apply sclass_eqb_eq; assumption | apply N.eqb_eq; assumption].
-Qed.
+(* ---- text: the code of a string is a function of its case folding ----------------------------------- *)
+Definition up (f : N) : N := if ((97 <=? f) && (f <=? 122))%N then (f - 32)%N else f.
+Lemma map_cfold : forall s, map cfold s = map up (map fold s).
+Proof. intro s. rewrite map_map. apply map_ext. intro c. reflexivity. Qed.
+Lemma fold_cfold : forall s t, equal_fold s t = true -> map cfold s = map cfold t.
+Proof. intros s t H. rewrite !map_cfold. apply equal_fold_map in H. rewrite H. reflexivity. Qed.
 
-(* ---- mask_sum, str_bytes ---------------------------------------------------------------------------- *)
-Lemma mask_sum_acc : forall l acc, fold_left (fun a b => (a + N.land b 223)%N) l acc = (acc + mask_sum l)%N.
-Proof.
-  induction l as [|x l IH]; intro acc; unfold mask_sum; simpl.
-  - lia.
-  - rewrite IH. rewrite (IH (N.land x 223)). lia.
-Qed.
-Lemma mask_sum_cons : forall x l, mask_sum (x :: l) = (N.land x 223 + mask_sum l)%N.
-Proof. intros x l. unfold mask_sum at 1. simpl. rewrite mask_sum_acc. lia. Qed.
+(* ---- numbers: the code is a function of the value ------------------------------------------------------ *)
+Lemma roundQ_compat : forall p q r, Qeq q r -> roundQ p q = roundQ p r.
+Proof. intros p q r H. unfold roundQ. rewrite (Qred_complete q r H). reflexivity. Qed.
+Lemma hcanon_compat : forall x y, Qeq (num_val x) (num_val y) -> hcanon x = hcanon y.
+Proof. intros x y H. unfold hcanon. rewrite (roundQ_compat 53 _ _ H). reflexivity. Qed.
 
-Definition ascii_str (s : list N) : Prop := Forall (fun c => (c < 128)%N) s.
-Lemma ascii_plain_lt : forall c, ascii_plain c = true -> (c < 128)%N.
-Proof. intros c H. unfold ascii_plain in H. apply andb_true_iff in H as [H _]. apply N.ltb_lt. assumption. Qed.
-Lemma ascii_plain_cp : forall c, ascii_plain c = true -> cp_plain c = true.
-Proof. intros c H. unfold ascii_plain in H. apply andb_true_iff in H as [_ H]. assumption. Qed.
-Lemma str_bytes_ascii : forall s, ascii_str s -> str_bytes s = s.
+(* what the guard says about one number *)
+Definition nfacts (fl : bool) (x : obj) : Prop :=
+  match x with
+  | Fix z | Big z => fl = true -> Z.abs z < 2 ^ 24
+  | Rat n d => 0 < d /\ (fl = true -> pow2b d = true /\ Z.abs n < 2 ^ 24)
+  | Flt _ m e => fl = true /\ Z.abs m < 2 ^ 24
+  | _ => True
+  end.
+Lemma dom_facts : forall fl x, hash_dom fl x = true -> nfacts fl x.
 Proof.
-  intros s H. induction H; unfold str_bytes in *; simpl; auto.
-  rewrite IHForall. unfold utf8. apply N.ltb_lt in H. rewrite H. reflexivity.
+  intros fl x H. destruct x; cbn [hash_dom nfacts] in *; auto.
+  - intro F. subst fl. simpl in H. apply Z.ltb_lt. exact H.
+  - intro F. subst fl. simpl in H. apply Z.ltb_lt. exact H.
+  - apply andb_true_iff in H as [H1 H2]. apply Z.ltb_lt in H1. split; auto.
+    intro F. subst fl. simpl in H2. apply andb_true_iff in H2 as [H2 H3]. apply Z.ltb_lt in H3. auto.
+  - apply andb_true_iff in H as [H1 H2]. apply Z.ltb_lt in H2. auto.
 Qed.
 
-Definition first_ok (s : list N) : bool :=
-  match s with [] => true | c :: _ => if (c <? 128)%N then match sen_class c with CO => false | _ => true end else false end.
-Definition has_x (s : list N) : bool :=
-  existsb (fun c => (c <? 128)%N && match sen_class c with CX => true | _ => false end) s.
-
-Lemma fold_pair_facts : forall s t, ascii_str s -> ascii_str t -> equal_fold s t = true ->
-  List.length s = List.length t /\ mask_sum s = mask_sum t /\ has_x s = has_x t /\ first_ok s = first_ok t.
+(* values *)
+Lemma dyQ_int : forall X a, dy_eqb X (a, 0) = true -> Qeq (dyQ X) (inject_Z a).
 Proof.
-  intros s t Hs. revert t. induction Hs as [|a s Ha Hs IH]; intros [|b t] Ht H; simpl in H; try discriminate.
-  - repeat split.
-  - apply andb_true_iff in H as [H1 H2]. inversion Ht as [|? ? Hb Ht']; subst.
-    destruct (IH t Ht' H2) as (L & M & X & _).
-    destruct (per_char a b Ha Hb H1) as [C K].
-    repeat split.
-    + simpl. congruence.
-    + rewrite !mask_sum_cons. congruence.
-    + unfold has_x in *. simpl. rewrite C, X. apply N.ltb_lt in Ha, Hb. rewrite Ha, Hb. reflexivity.
-    + simpl. rewrite C. apply N.ltb_lt in Ha, Hb. rewrite Ha, Hb. reflexivity.
+  intros X a H. apply dy_eqb_Qeq in H. eapply Qeq_trans; [exact H|].
+  unfold dyQ, Qeq. simpl. lia.
+Qed.
+Lemma int_rep : forall a, dy_is_rat (a, 0) a 1 = true.
+Proof. intro a. unfold dy_is_rat. simpl (0 <=? 0). cbv iota. apply Z.eqb_eq. rewrite Z.pow_0_r. lia. Qed.
+Lemma rat_rep : forall n d, 0 < d -> pow2b d = true -> dy_is_rat (n, - Z.log2 d) n d = true.
+Proof.
+  intros n d Hd H. unfold pow2b in H. apply Z.eqb_eq in H. pose proof (Z.log2_nonneg d) as K.
+  set (k := Z.log2 d) in *. unfold dy_is_rat. destruct (Z.leb_spec 0 (- k)) as [L|L]; apply Z.eqb_eq.
+  - assert (k = 0) by lia. replace (- k) with 0 by lia. rewrite H. replace k with 0 by lia. rewrite Z.pow_0_r. lia.
+  - rewrite Z.opp_involutive. rewrite <- H. reflexivity.
+Qed.
+Lemma flt_rep : forall m e, dy_eqb (m, e) (m, e) = true.
+Proof. intros. apply dy_eqb_refl. Qed.
+Lemma Qeq_int_rat : forall a n d, 0 < d -> a * d = n -> Qeq (inject_Z a) (Qmake n (Z.to_pos d)).
+Proof. intros a n d Hd H. unfold Qeq. simpl. rewrite Zpos_to_pos by assumption. lia. Qed.
+Lemma Qeq_rat_rat : forall n d n' d', 0 < d -> 0 < d' -> n * d' = n' * d -> Qeq (Qmake n (Z.to_pos d)) (Qmake n' (Z.to_pos d')).
+Proof. intros. unfold Qeq. simpl. rewrite !Zpos_to_pos by assumption. lia. Qed.
+Lemma Qeq_int_int : forall a b, a = b -> Qeq (inject_Z a) (inject_Z b).
+Proof. intros. subst. apply Qeq_refl. Qed.
+
+(* an integer of the guard against a rounding of it: the rounding is the integer *)
+Lemma int_round : forall p a X, 24 <= p -> Z.abs a < 2 ^ 24 -> dy_eqb (rne p a 1) X = true -> Qeq (inject_Z a) (dyQ X).
+Proof.
+  intros p a X Hp Ha H.
+  assert (E : dy_eqb (rne p a 1) (a, 0) = true).
+  { apply rne_exact; try lia. apply int_rep. eapply Z.lt_le_trans; [exact Ha|]. apply Z.pow_le_mono_r; lia. }
+  apply Qeq_sym. eapply Qeq_trans; [apply Qeq_sym; apply dy_eqb_Qeq; exact H|]. apply dyQ_int. exact E.
+Qed.
+Lemma prec_ge : forall k, 24 <= prec_of k.
+Proof. intros []; simpl; lia. Qed.
+Lemma int_via : forall k a X, Z.abs a < 2 ^ 24 -> dy_eqb (via_double k a 1) X = true -> Qeq (inject_Z a) (dyQ X).
+Proof.
+  intros k a X Ha H.
+  pose proof (via_double_exact k a 1 a 0 ltac:(lia) (int_rep a) Ha) as E.
+  apply Qeq_sym. eapply Qeq_trans; [apply Qeq_sym; apply dy_eqb_Qeq; exact H|]. apply dyQ_int. exact E.
+Qed.
+Lemma rat_via : forall k n d X, 0 < d -> pow2b d = true -> Z.abs n < 2 ^ 24 ->
+  dy_eqb (via_double k n d) X = true -> Qeq (Qmake n (Z.to_pos d)) (dyQ X).
+Proof.
+  intros k n d X Hd Hp Hn H.
+  pose proof (via_double_exact k n d n (- Z.log2 d) Hd (rat_rep n d Hd Hp) Hn) as E.
+  apply Qeq_sym. eapply Qeq_trans; [apply Qeq_sym; apply dy_eqb_Qeq; exact H|].
+  eapply Qeq_trans; [apply dy_eqb_Qeq; exact E|]. apply dy_is_rat_Qeq; auto. apply rat_rep; auto.
 Qed.
 
-Lemma sen_quoted_alt : forall s, sen_quoted s =
-  match s with [] => true | _ => (64 <? N.of_nat (List.length (str_bytes s)))%N || first_ok s || has_x s end.
-Proof. intros [|c s]; reflexivity. Qed.
+Ltac dsym H := rewrite dy_eqb_sym in H.
 
-Lemma hash_string_fold : forall s t, forallb ascii_plain s = true -> forallb ascii_plain t = true ->
-  equal_fold s t = true -> hash_string s = hash_string t.
+Lemma same_val : forall fl x y, hash_dom fl x = true -> hash_dom fl y = true ->
+  is_number x = true -> is_number y = true -> same_m x y = true -> Qeq (num_val x) (num_val y).
 Proof.
-  intros s t Hs Ht H.
-  assert (As : ascii_str s). { apply forallb_Forall in Hs. eapply Forall_impl; [|exact Hs]. apply ascii_plain_lt. }
-  assert (At : ascii_str t). { apply forallb_Forall in Ht. eapply Forall_impl; [|exact Ht]. apply ascii_plain_lt. }
-  assert (Ps : forallb cp_plain s = true).
-  { apply forallb_Forall. apply forallb_Forall in Hs. eapply Forall_impl; [|exact Hs]. apply ascii_plain_cp. }
-  assert (Pt : forallb cp_plain t = true).
-  { apply forallb_Forall. apply forallb_Forall in Ht. eapply Forall_impl; [|exact Ht]. apply ascii_plain_cp. }
-  unfold hash_string. rewrite Ps, Pt. rewrite !sen_quoted_alt, (str_bytes_ascii s As), (str_bytes_ascii t At).
-  destruct (fold_pair_facts s t As At H) as (L & M & X & F).
-  rewrite M, X, F, L.
-  destruct s, t; simpl in L; try discriminate; reflexivity.
+  intros fl x y Dx Dy Nx Ny H. apply dom_facts in Dx, Dy.
+  destruct x; simpl in Nx; try discriminate; destruct y; simpl in Ny; try discriminate;
+    cbn [nfacts] in Dx, Dy; cbn [same_m num_val] in *.
+  - (* Fix Fix *) apply Z.eqb_eq in H. apply Qeq_int_int; auto.
+  - (* Fix Big *) apply Z.eqb_eq in H. apply Qeq_int_int; auto.
+  - (* Fix Rat *) apply Z.eqb_eq in H. apply Qeq_int_rat; tauto.
+  - (* Fix Flt *) destruct Dy as [F _]. apply (int_round (prec_of k) z (m, e)); auto using prec_ge.
+  - (* Big Fix *) apply Z.eqb_eq in H. apply Qeq_int_int; auto.
+  - (* Big Big *) apply Z.eqb_eq in H. apply Qeq_int_int; auto.
+  - (* Big Rat *) apply Z.eqb_eq in H. apply Qeq_int_rat; tauto.
+  - (* Big Flt *) destruct Dy as [F _]. apply (int_via k z (m, e)); auto.
+  - (* Rat Fix *) apply Z.eqb_eq in H. apply Qeq_sym. apply Qeq_int_rat; [tauto|lia].
+  - (* Rat Big *) apply Z.eqb_eq in H. apply Qeq_sym. apply Qeq_int_rat; [tauto|lia].
+  - (* Rat Rat *) apply Z.eqb_eq in H. apply Qeq_rat_rat; tauto.
+  - (* Rat Flt *) destruct Dy as [F _]. destruct Dx as [Hd Dx]. destruct (Dx F) as [P B]. apply (rat_via k n d (m, e)); auto.
+  - (* Flt Fix *) destruct Dx as [F _]. dsym H. apply Qeq_sym. apply (int_round (prec_of k) z (m, e)); auto using prec_ge.
+  - (* Flt Big *) destruct Dx as [F _]. dsym H. apply Qeq_sym. apply (int_via k z (m, e)); auto.
+  - (* Flt Rat *) destruct Dx as [F _]. destruct Dy as [Hd Dy]. destruct (Dy F) as [P B]. dsym H. apply Qeq_sym.
+    apply (rat_via k n d (m, e)); auto.
+  - (* Flt Flt *) apply dy_eqb_Qeq. exact H.
 Qed.
+
+Lemma oeq_val : forall fl x y, hash_dom fl x = true -> hash_dom fl y = true ->
+  is_number x = true -> oeq x y = true -> is_number y = true /\ Qeq (num_val x) (num_val y).
+Proof.
+  intros fl x y Dx Dy Nx H. pose proof (oeq_number x y Nx H) as Ny. split; auto. apply dom_facts in Dx, Dy.
+  destruct x; simpl in Nx; try discriminate; destruct y; simpl in Ny; try discriminate;
+    cbn [nfacts] in Dx, Dy; cbn [oeq flt_equal_num num_val] in *.
+  - apply Z.eqb_eq in H. apply Qeq_int_int; auto.
+  - apply andb_true_iff in H as [_ H]. apply Z.eqb_eq in H. apply Qeq_int_int; auto.
+  - apply andb_true_iff in H as [H H3]. apply andb_true_iff in H as [H1 _]. apply Z.eqb_eq in H1, H3. subst.
+    apply Qeq_int_rat; [tauto|lia].
+  - destruct Dy as [F _]. apply (int_round (prec_of k) z (m, e)); auto using prec_ge.
+  - apply andb_true_iff in H as [_ H]. apply Z.eqb_eq in H. apply Qeq_int_int; auto.
+  - apply Z.eqb_eq in H. apply Qeq_int_int; auto.
+  - apply andb_true_iff in H as [H1 H2]. apply Z.eqb_eq in H1, H2. subst. apply Qeq_int_rat; [tauto|lia].
+  - apply Qeq_sym. apply dyQ_int. exact H.
+  - apply andb_true_iff in H as [H H3]. apply andb_true_iff in H as [H1 _]. apply Z.eqb_eq in H1, H3. subst.
+    apply Qeq_sym. apply Qeq_int_rat; [tauto|lia].
+  - apply andb_true_iff in H as [H1 H2]. apply Z.eqb_eq in H1, H2. subst. apply Qeq_sym. apply Qeq_int_rat; [tauto|lia].
+  - apply Z.eqb_eq in H. apply Qeq_rat_rat; tauto.
+  - apply andb_true_iff in H as [H1 H2]. destruct Dx as [Hd _].
+    apply Qeq_sym. eapply Qeq_trans; [apply Qeq_sym; apply dy_eqb_Qeq; exact H2|]. apply dy_is_rat_Qeq; auto.
+  - destruct Dx as [F _]. dsym H. apply Qeq_sym. apply (int_round (prec_of k) z (m, e)); auto using prec_ge.
+  - apply dyQ_int. exact H.
+  - apply andb_true_iff in H as [H1 H2]. destruct Dy as [Hd _].
+    eapply Qeq_trans; [apply Qeq_sym; apply dy_eqb_Qeq; exact H2|]. apply dy_is_rat_Qeq; auto.
+  - apply dy_eqb_Qeq. exact H.
+Qed.
+
+Lemma hsum_number : forall x, is_number x = true -> hsum x = Some (hash_num (hcanon x)).
+Proof. intros [] H; simpl in H; try discriminate; reflexivity. Qed.
+Lemma num_hash : forall x y, is_number x = true -> is_number y = true -> Qeq (num_val x) (num_val y) -> hsum x = hsum y.
+Proof. intros x y Nx Ny H. rewrite (hsum_number x Nx), (hsum_number y Ny), (hcanon_compat x y H). reflexivity. Qed.
 
 (* ---- lists ------------------------------------------------------------------------------------------- *)
-Definition hsum_list (l : list obj) : option N := fold_right (fun e acc => opt_add (hsum e) acc) (Some 0%N) l.
-Lemma hsum_Lst : forall xs, hsum (Lst xs) = opt_add (Some 184%N) (hsum_list xs).
+Definition hsum_list (l : list obj) : option hcode :=
+  fold_right (fun e acc => opt_add (hsum e) acc) (hc_text (Some 0%N)) l.
+Lemma hsum_Lst : forall xs, hsum (Lst xs) = opt_add (hc_text (Some 184%N)) (hsum_list xs).
+Proof. intro xs. reflexivity. Qed.
+Lemma hsum_Vec : forall xs, hsum (Vec xs) = opt_add (hc_text (Some 184%N)) (hsum_list xs).
+Proof. intro xs. reflexivity. Qed.
+Lemma hsum_list_all2 : forall fl (f : obj -> obj -> bool) xs,
+  Forall (fun x => hash_dom fl x = true -> forall y, hash_dom fl y = true -> f x y = true -> hsum x = hsum y) xs ->
+  forallb (hash_dom fl) xs = true -> forall ys, forallb (hash_dom fl) ys = true -> all2 f xs ys = true ->
+  hsum_list xs = hsum_list ys.
 Proof.
-  intro xs. reflexivity.
-Qed.
-Lemma hsum_Vec : forall xs, hsum (Vec xs) = opt_add (Some 184%N) (hsum_list xs).
-Proof.
-  intro xs. reflexivity.
-Qed.
-Lemma hsum_list_all2 : forall (f : obj -> obj -> bool) xs,
-  Forall (fun x => hash_dom x = true -> forall y, hash_dom y = true -> f x y = true -> hsum x = hsum y) xs ->
-  forallb hash_dom xs = true -> forall ys, forallb hash_dom ys = true -> all2 f xs ys = true -> hsum_list xs = hsum_list ys.
-Proof.
-  intros f xs H. induction H as [|x xs Hx Hxs IH]; intros Dx [|y ys] Dy A; simpl in A; try discriminate; auto.
+  intros fl f xs H. induction H as [|x xs Hx Hxs IH]; intros Dx [|y ys] Dy A; simpl in A; try discriminate; auto.
   simpl in Dx, Dy. apply andb_true_iff in Dx as [Dx1 Dx2]. apply andb_true_iff in Dy as [Dy1 Dy2].
   apply andb_true_iff in A as [A1 A2]. simpl. rewrite (Hx Dx1 y Dy1 A1), (IH Dx2 ys Dy2 A2). reflexivity.
 Qed.
 
 (* ---- Object.Equal, then equal ------------------------------------------------------------------------- *)
-Lemma oeq_hash : forall x, hash_dom x = true -> forall y, hash_dom y = true -> oeq x y = true -> hsum x = hsum y.
+Lemma oeq_hash : forall fl x, hash_dom fl x = true -> forall y, hash_dom fl y = true -> oeq x y = true -> hsum x = hsum y.
 Proof.
-  induction x using obj_ind'; intros Dx yy Dy E; destruct yy; cbn [oeq flt_equal_num] in E; try discriminate;
-    cbn [hash_dom] in Dx, Dy; try discriminate; auto.
-  - (* Fix, Fix *) apply Z.eqb_eq in E. subst. reflexivity.
-  - (* Fix, Big *) apply andb_true_iff in E as [E1 E2]. apply Z.eqb_eq in E2. subst. cbn [hsum]. rewrite E1. reflexivity.
-  - (* Big, Fix *) apply andb_true_iff in E as [E1 E2]. apply Z.eqb_eq in E2. subst. cbn [hsum]. rewrite E1. reflexivity.
-  - (* Big, Big *) apply Z.eqb_eq in E. subst. reflexivity.
+  intros fl. induction x using obj_ind'; intros Dx yy Dy E.
+  3-6: (match type of E with oeq ?x _ = true =>
+          destruct (oeq_val fl x yy Dx Dy eq_refl E) as [Ny V]; exact (num_hash x yy eq_refl Ny V) end).
+  all: destruct yy; cbn [oeq] in E; try discriminate; cbn [hash_dom] in Dx, Dy; auto.
   - (* Chr *) apply N.eqb_eq in E. subst. reflexivity.
   - (* Str *) apply lN_eqb_eq in E. subst. reflexivity.
-  - (* Sym *) cbn [hsum]. apply hash_string_fold; assumption.
-  - (* Lst *) rewrite !hsum_Lst. f_equal. eapply (hsum_list_all2 oeq); eauto.
+  - (* Sym *) cbn [hsum]. rewrite (fold_cfold _ _ E). reflexivity.
+  - (* Lst *) rewrite !hsum_Lst. f_equal. eapply (hsum_list_all2 fl oeq); eauto.
   - (* Tl *) cbn [hsum]. apply IHx; assumption.
-  - (* Vec *) rewrite !hsum_Vec. f_equal. eapply (hsum_list_all2 oeq); eauto.
+  - (* Vec *) rewrite !hsum_Vec. f_equal. eapply (hsum_list_all2 fl oeq); eauto.
 Qed.
 
-Lemma equal_hash : forall x, hash_dom x = true -> forall y, hash_dom y = true -> equal_s x y = true -> hsum x = hsum y.
+Lemma equal_hash : forall fl x, hash_dom fl x = true -> forall y, hash_dom fl y = true -> equal_s x y = true -> hsum x = hsum y.
 Proof.
-  induction x using obj_ind'; intros Dx yy Dy E; destruct yy; cbn [equal_s eqs is_number andb orb] in E; try discriminate;
-    cbn [hash_dom] in Dx, Dy; try discriminate; auto.
-  - (* Fix, Fix *) unfold same_m in E. apply Z.eqb_eq in E. subst. reflexivity.
-  - (* Fix, Big *) unfold same_m in E. apply Z.eqb_eq in E. subst. cbn [hsum]. rewrite Dx. reflexivity.
-  - (* Big, Fix *) unfold same_m in E. apply Z.eqb_eq in E. subst. cbn [hsum]. rewrite Dy. reflexivity.
-  - (* Big, Big *) unfold same_m in E. apply Z.eqb_eq in E. subst. reflexivity.
+  intros fl. induction x using obj_ind'; intros Dx yy Dy E.
+  3-6: (match type of E with equal_s ?x _ = true =>
+          rewrite (equal_s_num x yy eq_refl) in E; apply andb_true_iff in E as [Ny E];
+          exact (num_hash x yy eq_refl Ny (same_val fl x yy Dx Dy eq_refl Ny E)) end).
+  all: destruct yy; cbn [equal_s eqs is_number andb orb] in E; try discriminate; cbn [hash_dom] in Dx, Dy; auto.
   - (* Chr *) apply N.eqb_eq in E. subst. reflexivity.
-  - (* Str *) cbn [hsum]. apply hash_string_fold; assumption.
+  - (* Str *) cbn [hsum]. rewrite (fold_cfold _ _ E). reflexivity.
   - (* Sym *) rewrite orb_false_r in E. apply lN_eqb_eq in E. subst. reflexivity.
-  - (* Lst *) rewrite !hsum_Lst. f_equal. eapply (hsum_list_all2 equal_s); eauto.
+  - (* Lst *) rewrite !hsum_Lst. f_equal. eapply (hsum_list_all2 fl equal_s); eauto.
   - (* Tl *) cbn [hsum]. apply IHx; assumption.
-  - (* Vec *) rewrite !hsum_Vec. f_equal. eapply (hsum_list_all2 oeq); eauto.
-    apply Forall_forall. intros a _ Da b Db. apply oeq_hash; assumption.
+  - (* Vec *) rewrite !hsum_Vec. f_equal. eapply (hsum_list_all2 fl oeq); eauto.
+    apply Forall_forall. intros a _ Da b Db. apply (oeq_hash fl); assumption.
 Qed.
 
 (* the eq shortcut: one cell, one value *)
-Theorem sxhash_respects_equal : forall a b, consistent2 a b ->
-  hash_dom (r_obj a) = true -> hash_dom (r_obj b) = true ->
+Theorem sxhash_respects_equal : forall fl a b, consistent2 a b ->
+  hash_dom fl (r_obj a) = true -> hash_dom fl (r_obj b) = true ->
   equal_m a b = true -> sxhash_m (r_obj a) = sxhash_m (r_obj b).
 Proof.
-  intros a b C Da Db H. unfold equal_m in H. apply orb_true_iff in H as [H|H].
+  intros fl a b C Da Db H. unfold equal_m in H. apply orb_true_iff in H as [H|H].
   - rewrite (Proofs2.eq_m_same_obj a b C H). reflexivity.
-  - unfold sxhash_m. apply equal_hash; assumption.
+  - unfold sxhash_m. apply (equal_hash fl); assumption.
 Qed.
